@@ -6,6 +6,7 @@ import Fca.Drv.Util
 import Fca.Drv.C03
 import Fca.Model.LatticeQuery
 import Fca.Spec.LatticeQuery
+import Fca.Spec.C04Diagram
 open Lean
 namespace Fca.Drv.C04
 open Fca Fca.Drv Fca.Drv.C03
@@ -50,6 +51,53 @@ def labels : Handler := fun j => do
     ("holdsN", Json.bool byName),
     ("modelHolds", Json.bool (Spec.holdsC04 t mNewExtI mNewIntI mAnc))])
 
-def handlers : List (String × Handler) := [("C04.labels", labels)]
+/-- `{"op":"C04.state", <the fields of C04.labels>, "ch":[[..],..], "pa":[[..],..]}`: the same, for one state of a
+    lattice that has a history (possibly pruned, possibly with harness-built concepts); additionally the DRAWN
+    diagram is judged: the table is read back with "below" = reachability along the implementation's
+    `children_dict` (transposed) and along its `parents_dict`; the model's cover relation on the current concept list;
+    `hyp` is decided without enumerating attribute subsets when the table is wide (`hypSlow` = `null` then). -/
+def state : Handler := fun j => do
+  let t ← getTable j
+  let objs ← getStrList j "objs"
+  let attrs ← getStrList j "attrs"
+  let cs ← getLat (← j.getObjVal? "cs")
+  let iNewExtI ← getNatss (← j.getObjVal? "newExtI")
+  let iNewIntI ← getNatss (← j.getObjVal? "newIntI")
+  let iNewExt ← (← arr (← j.getObjVal? "newExt")).mapM strList
+  let iNewInt ← (← arr (← j.getObjVal? "newInt")).mapM strList
+  let iAnc ← getNatss (← j.getObjVal? "anc")
+  let iCh ← getNatss (← j.getObjVal? "ch")
+  let iPa ← getNatss (← j.getObjVal? "pa")
+  let idx := List.range cs.length
+  let ord : List Nat → List Nat := id
+  let mNewExtI := idx.map (LQ.newExtentI cs ord)
+  let mNewIntI := idx.map (LQ.newIntentI cs ord)
+  let mNewExt := idx.map (LQ.newExtent objs cs ord)
+  let mNewInt := idx.map (LQ.newIntent attrs cs ord)
+  let mAnc := idx.map (LQ.ancestors cs)
+  let mCh := idx.map (LQ.children cs ord)
+  let mPa := idx.map (LQ.parents cs ord)
+  let byName := match iNewExt.mapM (namesToIdxs objs), iNewInt.mapM (namesToIdxs attrs) with
+    | some e, some i => Spec.holdsC04 t e i iAnc
+    | _, _ => false
+  let fast := Spec.isConceptListFast t cs
+  let slow : Option Bool := if t.width ≤ 12 then some (Spec.isConceptList t cs) else none
+  pure (Json.mkObj [
+    ("hyp", Json.bool (slow.getD fast)),
+    ("hypFast", Json.bool fast),
+    ("hypSlow", match slow with | some b => Json.bool b | none => Json.null),
+    ("sub", Json.bool (Spec.isConceptSub t cs)),
+    ("newExtI", jSets mNewExtI), ("newIntI", jSets mNewIntI),
+    ("newExt", jStrSets mNewExt), ("newInt", jStrSets mNewInt), ("anc", jSets mAnc),
+    ("ch", jSets mCh), ("pa", jSets mPa),
+    ("holdsI", Json.bool (Spec.holdsC04 t iNewExtI iNewIntI iAnc)),
+    ("holdsN", Json.bool byName),
+    ("edgesAgree", Json.bool (Spec.relsAgree iCh iPa)),
+    ("holdsCh", Json.bool (Spec.holdsC04Edges t iNewExtI iNewIntI (Spec.transposeRel iCh.length iCh))),
+    ("holdsPa", Json.bool (Spec.holdsC04Edges t iNewExtI iNewIntI iPa)),
+    ("modelHolds", Json.bool (Spec.holdsC04 t mNewExtI mNewIntI mAnc)),
+    ("modelEdgesHold", Json.bool (Spec.holdsC04Edges t mNewExtI mNewIntI mPa && Spec.relsAgree mCh mPa))])
+
+def handlers : List (String × Handler) := [("C04.labels", labels), ("C04.state", state)]
 
 end Fca.Drv.C04
